@@ -166,6 +166,15 @@ def run(c) -> CaseResult:
             if not close(a, b):
                 res.fail("C16.grad", f"[{ftag}] gradient wrt {name} differs from the hand conversion\n{m._verif_source}")
                 break
+    # ---- (2') inference: the same function without gradient tracking
+    try:
+        with torch.no_grad():
+            y_ng = um(**{k: v.clone() for k, v in inputs.items()})
+            yr_ng = dsl.evaluate(prog, dsl.named_tensors(um), {k: v.clone() for k, v in inputs.items()}, dsl.Unit())
+        if not close(y_ng, yr_ng):
+            res.fail("C16.value.no_grad", f"[{ftag}] under torch.no_grad() unit_scale(module) returned {y_ng.item():.7g}, the hand conversion gives {yr_ng.item():.7g}\n{m._verif_source}")
+    except Exception as e:  # noqa: BLE001
+        res.fail(exc_bucket("C16.raises.no_grad", e).replace("outside-library", "via-dynamo")[:300], f"{type(e).__name__}: {str(e)[:300]}\n{m._verif_source}")
     # ---- (3) the original is untouched; (4) weights of Linear/Embedding modules re-initialised, biases zero
     for k, v in m.state_dict().items():
         if not torch.equal(v, sd0[k]):
